@@ -608,7 +608,7 @@ def order_greedy(ctx):
     return _emit(d)
 
 
-@rule("ORDER-RELUCTANT", ["C02", "C01", "C20", "C06"], floor=6)
+@rule("ORDER-RELUCTANT", ["C02", "C01", "C20", "C06", "C19", "C03"], floor=6)
 def order_reluctant(ctx):
     """ReluctantFixedIterator: the first call performs exactly min iterations (failing -> exhausted) and yields
     that position; each later call performs one more iteration while count < max (clearing the groups beyond the
@@ -659,7 +659,7 @@ def order_reluctant(ctx):
     return _emit(d)
 
 
-@rule("REPEAT-ITER", ["C06", "C01", "C02", "C20"], floor=8)
+@rule("REPEAT-ITER", ["C06", "C01", "C02", "C20", "C16"], floor=8)
 def repeat_iter(ctx):
     """Repeat::matches_iter: the priming loop and the iterator stack are bounded by min(max, remaining+1) (the
     bound that makes the greedy repeat finite whatever its body matches); a greedy repeat is driven by
